@@ -63,6 +63,9 @@ def cases(tier, seed):
     for i in range(4):
         for form in ("float", "string", "quantity"):
             out.append(dict(fam="convert", pair=i, form=form))
+    for n in (1, 2, 7):
+        out.append(dict(fam="wire", nseg=n))
+    out.append(dict(fam="tdep_applied"))
     return out
 
 
@@ -429,5 +432,80 @@ def run_convert(case):
     return res
 
 
+def run_wire(case):
+    """tdgl.em.biot_savart (filamentary currents) and current_loop_field against a direct sum / the analytic on-axis field"""
+    from tdgl.em import biot_savart, current_loop_field
+
+    res = CaseResult()
+    res.key = case_key(case)
+    rng = np.random.default_rng(77)
+    n = case["nseg"]
+    pos = rng.normal(size=(n, 3))
+    vec = rng.normal(size=(n, 3)) * 0.1
+    cur = rng.normal(size=n)
+    for m in (1, 2, 5):
+        ev = rng.normal(size=(m, 3)) + np.array([4.0, 0.0, 3.0])
+        forms = [ev] if m > 1 else [ev, ev[0], ev[0].tolist()]
+        want = np.zeros((m, 3))
+        for i in range(m):
+            for k in range(n):
+                r = ev[i] - pos[k]
+                want[i] += MU0 / (4 * np.pi) * cur[k] * np.cross(vec[k], r) / np.linalg.norm(r) ** 3
+        for f in forms:
+            got = biot_savart(f, current_positions=(pos if n > 1 else pos[0]), current_vectors=(vec if n > 1 else vec[0]), currents=(cur if n > 1 else cur[0])).to("tesla").magnitude
+            res.count("comparisons")
+            if got.shape != want.shape or np.abs(got - want).max() > 1e-12 * np.abs(want).max():
+                res.violate("wire-field-differs-from-direct-sum", detail={"n": n, "m": m})
+    # loop field on the axis: mu0 I a^2 / (2 (a^2 + z^2)^{3/2}); the 100-segment polygon is accurate to ~1e-3
+    for R, z, lu, cu in ((1.0, 0.0, "um", "uA"), (2.5, 1.7, "um", "mA"), (0.5, -3.0, "nm", "uA")):
+        c = np.array([0.3, -0.2, 0.1])
+        got = current_loop_field(c + np.array([0, 0, z]), loop_center=c, loop_radius=R, current=2.0, length_units=lu, current_units=cu).to("tesla").magnitude[0]
+        a, zz, I = R * LEN[lu], z * LEN[lu], 2.0 * CURR[cu]
+        wantz = MU0 * I * a**2 / (2 * (a**2 + zz**2) ** 1.5)
+        res.count("comparisons")
+        if abs(got[2] - wantz) > 2e-3 * abs(wantz) or np.abs(got[:2]).max() > 1e-3 * abs(wantz):
+            res.violate("loop-field-on-axis", units=f"{lu}/{cu}", detail={"got": got, "want_z": wantz})
+    res.nontrivial = True
+    res.outcome = "wire"
+    return res
+
+
+def _tdep_field(x, y, z, *, t, B=0.4):
+    b = B * (1.0 + 5.0 * t)
+    return np.stack([-b * y / 2, b * x / 2, np.zeros_like(x)], axis=1)
+
+
+def run_tdep_applied(case):
+    """the applied part of vector_potential_at_position of a time-dependent field is evaluated at the time of the loaded step"""
+    import os
+    import tempfile
+
+    import tdgl
+
+    from .. import drivers
+
+    res = CaseResult()
+    res.key = case_key(case)
+    dev = drivers.tiny(2)
+    dt = 2.0**-5
+    for k in (1, 2, 3):
+        opts = tdgl.SolverOptions(solve_time=6 * dt, dt_init=dt, dt_max=dt, adaptive=False, save_every=k, output_file=f"td{k}.h5", progress_interval=10**9)
+        sol = tdgl.solve(dev, opts, applied_vector_potential=tdgl.Parameter(_tdep_field, time_dependent=True))
+        frames, _ = drivers.read_frames(f"td{k}.h5")
+        pts = np.array([[0.1, 0.2, 1.0], [1.3, -0.4, 1.0], [-0.6, 0.9, 1.0]])
+        for i, fr in enumerate(frames):
+            sol.solve_step = i
+            t = float(fr["attrs"]["time"])
+            app = np.asarray(sol.vector_potential_at_position(pts, with_units=False, return_sum=False)["applied"])
+            want = _tdep_field(pts[:, 0], pts[:, 1], pts[:, 2], t=t)
+            res.count("comparisons")
+            if np.abs(app - want).max() > 1e-12 * np.abs(want).max():
+                res.violate("applied-part-evaluated-at-the-wrong-time", save_every=k, detail={"frame": i, "time": t, "got": app[0], "want": want[0]})
+                break
+    res.nontrivial = True
+    res.outcome = "tdep_applied"
+    return res
+
+
 def run_case(case):
-    return {"bs2d": run_bs2d, "sol": run_sol, "loop": run_loop, "convert": run_convert}[case["fam"]](case)
+    return {"bs2d": run_bs2d, "sol": run_sol, "loop": run_loop, "convert": run_convert, "wire": run_wire, "tdep_applied": run_tdep_applied}[case["fam"]](case)
